@@ -16,6 +16,7 @@ ID = 'C07'
 TECHNIQUE = 'online reference-model monitor: real evaluator vs reference evaluator R2 (outcome, value, names, operation count) on type-directed programs'
 FN_REPR = re.compile(r"<function .*? at 0x[0-9a-f]+>|<[\w.]*Lambda object at 0x[0-9a-f]+>|<built-in (?:function|method) \w+(?: of [^<>]*)?>|<method '\w+' of '\w+' objects>|<class '[\w.]+'>")
 RULE = 'programs of 1-8 statements from the type-directed generator G2 (lib/gen2.py): every operator on the type combinations the typing admits, all statement forms, slices with negative/fractional bounds and steps, lambdas (dynamic scoping, extra/missing arguments, parameters shadowing host names and builtins) driven by map/filter/reduce/sorted and host callbacks hm/try_, every deterministic builtin, None as a first-class value (bound literally, by the host, by misses of index_of/get/match), equal-but-differently-spelled number literals, aliasing probes, host-supplied initial names (ints alongside decimals), ast_names helpers with multi-statement bodies; ~15 % of programs violate exactly one fact (missing key, index out of range, pop of empty, undefined name/function, too few lambda arguments, compound assignment to an undefined name / missing key, one ill-typed operation); budgets: ample, the exact need T, T+1, T-1, the default 100; separators ; \\n \\r\\n, end-of-line comments; evaluated on a plain parser, as the SECOND evaluation of the same text on a caching parser, after an arbitrary earlier call, or with a UserDict names mapping. Non-trivial = the program ran under both evaluators and outcome, value, names and the three operation counts were compared; distinct = distinct (source, budget).'
+RULE += ' Alias probes also bind and store the host tuples handed out by enumerate() and items() and then mutate through one side.'
 ASSUMPTIONS = ['R2 (lib/refeval.py) is the reading of "the reference semantics": Python semantics over decimal.Decimal under the default context, string-on-the-left + coercion, '
                'decimal->int index casts, key->str dict casts, dynamically scoped positional lambdas, deep copy on assignment, statements yield None, one operation per node evaluation',
                'R2 is run on R1\'s tree of the rendered text, never on the tree the generator meant to write',
